@@ -23,6 +23,14 @@ Reading guide (statement clause → theorem):
     `vm_depth_valid_iff`
 * stated residual (DESIGN §7 C13): the sys route can form every realm key
     `prmkey_ok_iff`, `sys_route_reaches_realm_keys`, `sys_realm_disjoint_counterexample`
+* "every program calling the parameter APIs from any realm" (histories of API calls)
+    `route_changes_only_entitled_key`, `program_writes_respect_ownership`,
+    `realm_param_changed_only_by_owner_or_sys`, `module_param_changed_only_by_sys`
+
+What is NOT a theorem here (tied by correspondence and extracted code-shape
+facts instead): that the VM hands `pkey` the right current realm, that gno
+code has no other way to the keeper than these natives and the SDKParams
+adapter, and that the model functions equal the Go functions.
 -/
 namespace GnoVerif.C13
 
@@ -439,5 +447,147 @@ example : ∃ st' w, Route.run (fun m => if m = L!"vm" then some (vmWillSet fun 
   rw [this]
   intro h
   cases h
+
+/-! ## 8. every program: histories of parameter-API calls -/
+
+/-- A program, as far as parameters are concerned, is a sequence of API calls
+    (routes).  A call that panics aborts the transaction (its writes are
+    rolled back with everything else); skipping it is the more permissive
+    reading, and the ownership invariant holds even so. -/
+def runAll (reg : Registry) : Store → List Route → Store
+  | st, [] => st
+  | st, rt :: rts =>
+    match rt.run reg st with
+    | .ok (st', _) => runAll reg st' rts
+    | .error _ => runAll reg st rts
+
+/-- who may have written `key`: the realm whose `pkey` forms it, or the
+    system parameters realm through `prmkey` -/
+def Route.mayWrite (key : Str) : Route → Prop
+  | .chain r k _ => pkey r k = .ok key
+  | .sys c m s n _ => c = sysParamsRealm ∧ prmkey m s n = .ok key
+
+/-- one call changes at most the key it is entitled to -/
+theorem route_changes_only_entitled_key (reg : Registry) (st st' : Store) (rt : Route)
+    (w : Option Will) (key : Str) (hwf : rt.wf) (h : rt.run reg st = .ok (st', w))
+    (hch : st' key ≠ st key) : rt.mayWrite key := by
+  cases rt with
+  | chain r k v =>
+    obtain ⟨hc, _, _⟩ := realm_path_grammar r hwf
+    obtain ⟨_, _, hframe⟩ := realm_write_touches_only_own_key reg st st' r k v w hc h
+    have hk : key = L!"vm:" ++ r ++ ':' :: k := by
+      apply Classical.byContradiction
+      intro hne
+      exact hch (hframe key hne)
+    unfold Route.run realmWrite at h
+    cases hp : pkey r k with
+    | error e => simp [hp, bind, Except.bind] at h
+    | ok s =>
+      obtain ⟨_, _, rfl⟩ := (pkey_ok_iff r k s).mp hp
+      show pkey r k = .ok key
+      rw [hk]; exact hp
+  | sys c m s n v =>
+    unfold Route.run sysWrite at h
+    cases hs : sysKey c m s n with
+    | error e => simp [hs, bind, Except.bind] at h
+    | ok x =>
+      have hc := sys_gate c m s n x hs
+      subst hc
+      simp only [hs, bind, Except.bind] at h
+      obtain ⟨_, _, _, _, _, _, _, _, hst⟩ := sdk_write_validated reg st st' x v w h
+      have hk : key = x := by
+        apply Classical.byContradiction
+        intro hne
+        apply hch
+        rw [hst]
+        show (if key = x then _ else st key) = st key
+        exact if_neg hne
+      refine ⟨rfl, ?_⟩
+      have : sysKey sysParamsRealm m s n = prmkey m s n := by simp [sysKey]
+      rw [hk, ← this]; exact hs
+
+/-- THE STATEMENT, for every program: whatever sequence of parameter-API
+    calls is executed (any realms, any keys, any values, any interleaving),
+    a key that ends up changed was written by a call entitled to it. -/
+theorem program_writes_respect_ownership (reg : Registry) (ops : List Route)
+    (hwf : ∀ rt ∈ ops, rt.wf) : ∀ (st : Store) (key : Str),
+    runAll reg st ops key ≠ st key → ∃ rt ∈ ops, rt.mayWrite key := by
+  induction ops with
+  | nil => intro st key h; exact absurd rfl h
+  | cons rt rts ih =>
+    intro st key h
+    have hwf' : ∀ r ∈ rts, r.wf := fun r hr => hwf r (List.mem_cons_of_mem _ hr)
+    unfold runAll at h
+    cases hr : rt.run reg st with
+    | error e =>
+      simp only [hr] at h
+      obtain ⟨r, hr', hm⟩ := ih hwf' st key h
+      exact ⟨r, List.mem_cons_of_mem _ hr', hm⟩
+    | ok p =>
+      obtain ⟨st', w⟩ := p
+      simp only [hr] at h
+      by_cases hch : st' key = st key
+      · rw [← hch] at h
+        obtain ⟨r, hr', hm⟩ := ih hwf' st' key h
+        exact ⟨r, List.mem_cons_of_mem _ hr', hm⟩
+      · exact ⟨rt, List.mem_cons_self, route_changes_only_entitled_key reg st st' rt w key
+          (hwf rt List.mem_cons_self) hr hch⟩
+
+/-- Corollary, realms: if realm `r`'s parameter `k` changed during a program,
+    then `r` itself wrote it (same key) or the system parameters realm did —
+    no other realm can create or overwrite it. -/
+theorem realm_param_changed_only_by_owner_or_sys (reg : Registry) (ops : List Route)
+    (hwf : ∀ rt ∈ ops, rt.wf) (st : Store) (r k key : Str) (hk : pkey r k = .ok key)
+    (hch : runAll reg st ops key ≠ st key) :
+    (∃ v, Route.chain r k v ∈ ops) ∨ (∃ m s n v, Route.sys sysParamsRealm m s n v ∈ ops) := by
+  obtain ⟨rt, hmem, hm⟩ := program_writes_respect_ownership reg ops hwf st key hch
+  cases rt with
+  | chain r' k' v =>
+    obtain ⟨rfl, rfl⟩ := pkey_injective r' r k' k key hm hk
+    exact .inl ⟨v, hmem⟩
+  | sys c m s n v =>
+    obtain ⟨rfl, _⟩ := hm
+    exact .inr ⟨m, s, n, v, hmem⟩
+
+/-- Corollary, modules: a module key that changed during a program was
+    written by the system parameters realm. -/
+theorem module_param_changed_only_by_sys (reg : Registry) (ops : List Route)
+    (hwf : ∀ rt ∈ ops, rt.wf) (st : Store) (key : Str) (hk : isModuleKey key)
+    (hch : runAll reg st ops key ≠ st key) :
+    ∃ m s n v, Route.sys sysParamsRealm m s n v ∈ ops ∧ prmkey m s n = .ok key := by
+  obtain ⟨rt, hmem, hm⟩ := program_writes_respect_ownership reg ops hwf st key hch
+  cases rt with
+  | chain r k v =>
+    have hr : isUserlib r = true := hwf _ hmem
+    obtain ⟨h1, h2⟩ := pkey_never_module_param r k key hr hm
+    rcases hk with hk | hk
+    · exact absurd h1 hk
+    · exact absurd h2 hk
+  | sys c m s n v =>
+    obtain ⟨rfl, hp⟩ := hm
+    exact ⟨m, s, n, v, hmem, hp⟩
+
+/-- non-vacuity: two realms and the sys realm interleaved; each key ends up
+    with its owner's (or governance's) value -/
+example :
+    let reg : Registry := fun m => if m = L!"vm" then some (vmWillSet fun _ _ => true) else none
+    let ops := [Route.chain (L!"gno.land/r/a") (L!"k") (.int 1),
+                Route.chain (L!"gno.land/r/b") (L!"k") (.int 2),
+                Route.chain (L!"gno.land/r/b") (L!"x:y") (.int 3),
+                Route.sys (L!"gno.land/r/b") (L!"vm") (L!"gno.land/r/a") (L!"k") (.int 4),
+                Route.sys sysParamsRealm (L!"vm") (L!"p") (L!"min_write_depth_100") (.int 5)]
+    (∀ rt ∈ ops, rt.wf) ∧
+    runAll reg Store.empty ops (L!"vm:gno.land/r/a:k") = some (.int 1) ∧
+    runAll reg Store.empty ops (L!"vm:gno.land/r/b:k") = some (.int 2) ∧
+    runAll reg Store.empty ops (L!"vm:p:min_write_depth_100") = some (.int 5) := by
+  refine ⟨?_, rfl, rfl, rfl⟩
+  intro rt hrt
+  simp only [List.mem_cons, List.not_mem_nil, or_false] at hrt
+  rcases hrt with rfl | rfl | rfl | rfl | rfl
+  · exact (rfl : isUserlib (L!"gno.land/r/a") = true)
+  · exact (rfl : isUserlib (L!"gno.land/r/b") = true)
+  · exact (rfl : isUserlib (L!"gno.land/r/b") = true)
+  · trivial
+  · trivial
 
 end GnoVerif.C13
